@@ -8,7 +8,11 @@ virtual clock owned by the case, so time-outs are steps too.
 
 History = JSON list of steps ``[op, a, b]`` interpreted by ``check_case``:
 
-    put      a -> kind (ok / fail / ssh255 / big), b -> jobs-submit or other
+    put      a -> kind (ok / fail / ssh255 / big); b % 2 -> jobs-submit or
+             other; (b // 2) % 3 -> what the command's callback does when
+             the pool calls it: nothing / pool.set_stopping() / pool.close()
+             (a stop request that lands INSIDE process(), between reaping
+             and starting queued commands)
     proc     pool.process()
     rel      release running child number (a modulo #running)
     tick     advance the virtual clock (a: small step or past the time-out)
@@ -45,7 +49,11 @@ MANIFEST = {
 }
 RULE = (
     'Hypothesis draws pool size 1-3 and a history of 1-30 steps (put of an '
-    'ok/fail/ssh-255/big-output command as jobs-submit or other key; '
+    'ok/fail/ssh-255/big-output command as jobs-submit or other key, whose '
+    'callback does nothing or (about 1 put in 6) itself requests the stop '
+    'with set_stopping()/close(), so that the request lands inside '
+    'process() - after the reaping of that command, before queued commands '
+    'are started - or inside put_command(); '
     'process; release of a chosen running child; virtual clock tick, small '
     'or past the pool time-out; set_stopping; close; terminate) and an end '
     'phase (terminate, or drain = release all + tick past time-out + process '
@@ -54,7 +62,9 @@ RULE = (
     'once by the end; no command is launched twice; at every launch the '
     'number of live children (incl. the new one) <= size and '
     'len(runnings) <= size after every process(); no jobs-submit child is '
-    'launched at or after set_stopping/close/terminate.  The visibility of '
+    'launched at or after set_stopping/close/terminate has returned, '
+    'whether the request was a step of its own or was made by a callback '
+    'in the middle of a process() pass.  The visibility of '
     'terminate()\'s SIGKILL to the poll() that follows it is a drawn schedule '
     'bit (both outcomes are legal OS behaviour).  Non-trivial = at '
     'least 2 commands put, at least one child really launched, and at least '
@@ -76,6 +86,13 @@ ASSUMPTIONS = [
     'everything in subprocpool.py is the real code.',
     'After terminate() the pool is only given put_command (it is closed; its '
     'selector is gone), as the scheduler does.',
+    '"Once the pool is stopping" = from the moment set_stopping()/close() '
+    'has returned, wherever the caller was: the scheduler calls them from a '
+    'signal handler and from API commands while process() is in progress.  '
+    'The harness puts that schedule under the case\'s control by letting the '
+    'callback of a drawn command make the request (single thread, so no '
+    'launch can happen between the request and the harness noting it).  '
+    'Callbacks make no stop request during or after terminate().',
 ]
 
 KINDS = ['ok', 'fail', 'ssh255', 'big']
@@ -103,7 +120,9 @@ def histories(draw):
         r = draw(st.integers(0, 99))
         if r < 34:
             kind = draw(st.sampled_from([0, 0, 0, 1, 2, 3]))
-            steps.append(['put', kind, draw(st.integers(0, 1))])
+            # callback action: 0 nothing, 1 set_stopping(), 2 close()
+            act = draw(st.sampled_from([0] * 10 + [1, 2]))
+            steps.append(['put', kind, draw(st.integers(0, 1)) + 2 * act])
         elif r < 64:
             steps.append(['proc', 0, 0])
         elif r < 80:
@@ -125,10 +144,11 @@ def histories(draw):
 
 # ---------------------------------------------------------------- harness
 class _Cmd:
-    def __init__(self, idx, kind, jobs_submit):
+    def __init__(self, idx, kind, jobs_submit, cb_action=0):
         self.idx = idx
         self.kind = kind
         self.jobs_submit = jobs_submit
+        self.cb_action = cb_action      # 0 nothing, 1 set_stopping, 2 close
         self.callbacks = 0
         self.cb_kinds = []
         self.launches = 0
@@ -198,6 +218,7 @@ class _Run:
         self.stop_with_pending = False
         self.harness_error = None
         self.in_terminate = False
+        self.in_process = False
         self.late_killed = set()
         self.env = dict(os.environ)
         self.env['PATH'] = self.bindir + os.pathsep + self.env.get('PATH', '')
@@ -334,7 +355,7 @@ class _Run:
     def put(self, kind_i, js):
         kind = KINDS[kind_i % len(KINDS)]
         idx = len(self.cmds)
-        c = _Cmd(idx, kind, bool(js % 2))
+        c = _Cmd(idx, kind, bool(js % 2), (js // 2) % 3)
         self.cmds.append(c)
         c.fifo = os.path.join(self.fifodir, f'f{idx}')
         try:
@@ -362,14 +383,18 @@ class _Run:
                 self.viol.append(Violation(
                     'C42:callback-wrong-arguments',
                     f'command #{idx}: callback got {args!r}'))
+            self.callback_action(c)
 
         def cb255(ctx_, *args):
             c.callbacks += 1
             c.cb_kinds.append(('cb255', ctx_.ret_code))
+            self.callback_action(c)
 
         use255 = (idx % 2 == 0)
         self.classes.add('put:' + kind)
         self.classes.add('put:jobs-submit' if c.jobs_submit else 'put:other')
+        if c.cb_action:
+            self.classes.add('put:callback-requests-stop')
         if self.stop_requested:
             self.classes.add('put-after-stop')
         self.pool.put_command(
@@ -377,9 +402,44 @@ class _Run:
             callback_255=cb255 if use255 else None)
         self.max_queue = max(self.max_queue, len(self.pool.queuings))
 
+    def callback_action(self, c):
+        """The stop request a command's callback makes, if it is one of those.
+
+        Runs inside the pool (process() reaping c, or put_command()
+        rejecting it): the request lands in the middle of that call.
+        """
+        if not c.cb_action or c.callbacks != 1:
+            return
+        if self.terminated or self.in_terminate:
+            return
+        first = not self.stop_requested
+        queued_js = any(
+            i[0].cmd_key == self.spp.SubProcPool.JOBS_SUBMIT
+            for i in self.pool.queuings)
+        self.mark_stop(by=c)
+        if c.cb_action == 1:
+            self.pool.set_stopping()
+        else:
+            self.pool.close()
+            self.classes.add('close')
+        if self.in_process:
+            self.classes.add('stop-request-inside-process')
+            if first:
+                self.classes.add('first-stop-request-inside-process')
+                if queued_js:
+                    self.classes.add(
+                        'first-stop-request-inside-process-with-queued-'
+                        'jobs-submit')
+        else:
+            self.classes.add('stop-request-inside-put')
+
     def process(self):
         before = {c.idx for c in self._running_cmds()}
-        self.pool.process()
+        self.in_process = True
+        try:
+            self.pool.process()
+        finally:
+            self.in_process = False
         # time-out kills seen by the harness: was running, not released,
         # gone now
         after = {c.idx for c in self._running_cmds()}
@@ -424,9 +484,15 @@ class _Run:
             self.process()
             _time.sleep(0.0005)
 
-    def mark_stop(self):
+    def mark_stop(self, by=None):
+        """Note a stop request (by = the command whose callback makes it)."""
         if not self.stop_requested:
-            if self.pool.queuings or self.pool.runnings:
+            # (inside process() pool.runnings still lists what that pass
+            # has already reaped: those are not pending any more)
+            others = [i for i in self.pool.runnings
+                      if i[0].returncode is None
+                      and (by is None or i[0] is not by.proc)]
+            if self.pool.queuings or others:
                 self.stop_with_pending = True
                 self.classes.add('stop-with-pending')
             if any(i[0].cmd_key == self.spp.SubProcPool.JOBS_SUBMIT
